@@ -497,15 +497,22 @@ Proof.
     2:{ apply after_call_pure2; [done|]. split; [done|]. split; [exact Hen|]. by split. }
     assert (Ht : t ∈ U).
     { apply nth_error_In in Hnth. rewrite forallb_forall in Had. specialize (Had t Hnth). by apply bool_decide_eq_true in Had. }
+    rewrite (load_id _ _ _ (proj1 Hen)).
+    destruct (negb (read_state W D1 t CREATED_SLOT =? 0) || negb (read_state W D1 t CODE_SLOT =? 0)).
+    { apply after_call_pure2; [done|]. split; [done|]. split; [exact Hen|]. by split. }
     apply after_call_pure2; [done|].
     assert (Hstep : pstep2 U W D1 (do_call_gen true order (W, D1) self t v (create_run order o t sc body))).
     { apply do_call_gen_pure2; auto; [apply Hen|]. intros D2 Hwf2 Hc2. rewrite create_run_eq.
-      pose proof (reset_ext W D2 t Hwf2) as Her.
+      pose proof (reset_ext W D2 t Hwf2) as Her0.
       assert (Hrf : cohp W (reset_obj D2 t) /\ total U W (reset_obj D2 t) = total U W D2).
       { destruct (objs D2 !! t) as [ot|] eqn:Eot; [by eapply reset_facts|]. unfold reset_obj. by rewrite Eot. }
-      destruct Hrf as [Hcr Htr].
-      destruct (forall_list2 U order o W body Hw IH Hp Hns Hcb t (reset_obj D2 t) Ht (proj1 Her) Hcr) as (HWb & Heb & Hcb2 & Htb).
-      destruct (exec_list order o t body (W, reset_obj D2 t)) as [[Wb Db] ocb].
+      destruct Hrf as [Hcr0 Htr0].
+      pose proof (set_state_ext W (reset_obj D2 t) t CREATED_SLOT 1 (proj1 Her0)) as Her1.
+      destruct (set_state_facts U W (reset_obj D2 t) t CREATED_SLOT 1 (proj1 Her0) Hcr0 Hw) as [Hcr Htr1].
+      assert (Her : ext W D2 (set_state W (reset_obj D2 t) t CREATED_SLOT 1)) by (eapply ext_trans; eauto).
+      assert (Htr : total U W (set_state W (reset_obj D2 t) t CREATED_SLOT 1) = total U W D2) by congruence.
+      destruct (forall_list2 U order o W body Hw IH Hp Hns Hcb t _ Ht (proj1 Her) Hcr) as (HWb & Heb & Hcb2 & Htb).
+      destruct (exec_list order o t body (W, set_state W (reset_obj D2 t) t CREATED_SLOT 1)) as [[Wb Db] ocb].
       cbn [fst snd] in HWb, Heb, Hcb2, Htb. subst Wb.
       assert (He2 : ext W D2 Db) by (eapply ext_trans; eauto).
       destruct ocb; unfold pstep2; cbn [fst snd].
@@ -679,10 +686,12 @@ Proof.
     cbv zeta.
     pose proof (live_set_state W (load W D self) self NONCE_SLOT (read_state W (load W D self) self NONCE_SLOT + 1) Hl0) as Hl1.
     destruct (nth_error ad (Z.to_nat (read_state W (load W D self) self NONCE_SLOT))) as [t|]; [|by apply after_call_live].
+    match goal with |- context [if ?b then _ else _] => destruct b end.
+    { apply after_call_live. unfold lstep. cbn. by apply live_load. }
     apply after_call_live. apply do_call_gen_live; [done|].
     intros W1 D2 Hl2. rewrite create_run_eq.
-    pose proof (forall_list_live order o body IH Hp Hns t W1 (reset_obj D2 t) (live_reset D2 t Hl2)) as Hb. unfold lstep in Hb.
-    destruct (exec_list order o t body (W1, reset_obj D2 t)) as [[Wb Db] ocb]. cbn [fst snd] in Hb.
+    pose proof (forall_list_live order o body IH Hp Hns t W1 _ (live_set_state W1 _ t CREATED_SLOT 1 (live_reset D2 t Hl2))) as Hb. unfold lstep in Hb.
+    destruct (exec_list order o t body (W1, set_state W1 (reset_obj D2 t) t CREATED_SLOT 1)) as [[Wb Db] ocb]. cbn [fst snd] in Hb.
     destruct ocb; unfold lstep; cbn [fst snd]; [|exact Hb]. destruct sc; [by apply live_set_state|exact Hb].
   - discriminate.
 Qed.
